@@ -476,15 +476,15 @@ def run(ctx):
                     dists.append(tuple(float(x) for x in d))
             except Exception:
                 pass
-            codes = r.sample(cspecs, 4) if quick else cspecs
+            codes = r.sample(cspecs, 6) if quick else cspecs
             for cspec in codes:
-                for _ in range(1 if quick else 3):
+                for _ in range(2 if quick else 3):
                     gen_case(ctx, mspec, cspec, p, r.randrange(2 ** 32), r.choice([0, 0, 1, 5, 64]))
     cdf_cases(ctx, sorted(set(dists)))
 
     # B. whole runs: recorded step errors and measurement flips from one stream
     small = [c for c in cspecs if make_code(c).n_k_d[0] <= (60 if quick else 200)]
-    for it in range(ctx.scale(350, 4000)):
+    for it in range(ctx.scale(600, 4000)):
         mspec = r.choice(mspecs); cspec = r.choice(small)
         p = r.choice(PS); T = r.choice([1, 1, 2, 3, 5]); q = r.choice([None, None, 0.0, 1e-12, 0.3, 1.0, 0])
         api = r.choice(['once_ftp', 'once_ftp', 'ftp', 'ftp', 'once', 'run'])
